@@ -330,6 +330,9 @@ PRELUDE = r'''
     (case how
       "ev/thread" (ev/thread c18-entry [c18-src st])
       "ev/thread-n" (let [tc (ev/thread-chan 1)] (ev/thread c18-entry [c18-src st tc] :n) (ev/take tc))
+      # (the thread's main may also be a fiber made in the parent: it is resumed in the new thread)
+      "ev/thread-fiber" (let [a [c18-src st]] (ev/thread (fiber/new (fn [&] (c18-entry a)))))
+      "ev/thread-fiber-n" (let [tc (ev/thread-chan 1) a [c18-src st tc]] (ev/thread (fiber/new (fn [&] (c18-entry a))) nil :n) (ev/take tc))
       "ev/do-thread" (let [a [c18-src st]] (ev/do-thread (c18-entry a)))
       "ev/spawn-thread" (let [tc (ev/thread-chan 1) a [c18-src st tc]] (ev/spawn-thread (c18-entry a)) (ev/take tc)))
     ([e] (sim/ev :thread-failed how (string e))))
